@@ -14,6 +14,9 @@ Only property theorems live here; the lemmas are in `Lemmas/Ccitt{Tables,Feed,Ru
 Pixels: `true` = white.
 -/
 import PdfVerif.Lemmas.CcittImage
+import PdfVerif.Lemmas.CcittTotal
+import PdfVerif.Lemmas.CcittBound
+import PdfVerif.Model.CcittStream
 
 namespace PdfVerif.Props.C19
 open PdfVerif PdfVerif.Ccitt PdfVerif.Gen PdfVerif.Spec
@@ -124,7 +127,7 @@ theorem image_rt (w : Nat) (hw : 1 ≤ w) (rows : List (List Bool)) (hrows : ∀
   simp only [ccittfaxdecode, ne_eq, not_true_eq_false, if_false, Option.getD_some, hc, Int.toNat_natCast,
     T6.encodeImage]
   rw [feedBytes_flat _ _ 0 rfl, hup, hf]
-  simp only [hb]
+  simp only [hb, packLine_fun]
   rfl
 
 /-- The same through the parameter dictionary (the `CCITTFaxDecode` branch of `PDFStream.decode`
@@ -138,8 +141,169 @@ theorem stream_rt (p : Params) (w : Nat) (hw : 1 ≤ w) (hK : p.K = some (-1))
       = .ok (T6.packImage (p.blackIs1.getD false) rows) := by
   have h := image_rt w hw rows hrows chs (p.encodedByteAlign.getD false) eofb (p.blackIs1.getD false)
   simp only [ccittfaxdecodeParams, hK]
-  simp only [ccittfaxdecode, ne_eq, not_true_eq_false, if_false, Option.getD_some, hcol] at h ⊢
+  simp only [ccittfaxdecode, CcittCode.columnsDefault, Option.getD_some, hcol] at h ⊢
   exact h
+
+/-! ## From the stream dictionary to the decoder (PDFStream.get_filters / _decode) -/
+
+/-- `decodeChain` runs the filters one after the other. -/
+theorem decodeChain_append (other : String → List UInt8 → Except Err (List UInt8)) :
+    ∀ (pre post : List (PObj × PObj)) (raw : List UInt8),
+      decodeChain other (pre ++ post) raw =
+        match decodeChain other pre raw with
+        | .ok mid => decodeChain other post mid
+        | .error e => .error e := by
+  intro pre
+  induction pre with
+  | nil => intro post raw; rfl
+  | cons fp rest ih =>
+    intro post raw
+    obtain ⟨f, p⟩ := fp
+    simp only [List.cons_append, decodeChain]
+    cases decodeStep other f p raw with
+    | error e => rfl
+    | ok d => exact ih post d
+
+/-- The CCITTFaxDecode branch on a parameter dictionary `d`: `K` is the integer -1, `Columns` an
+integer or absent (1728), the two flags anything Python treats as a truth value, and ANY other
+entries (/Rows, /EndOfBlock, /EndOfLine, /DamagedRowsBeforeError, …) — they are never read. -/
+theorem ccittBranch_rt (d : Dict) (w : Nat) (hw : 1 ≤ w) (c : Option Int) (al rv : Bool)
+    (hK : d.lookup CcittStream.keyK = some (.int (-1)))
+    (hcols : columnsOf d = .ok c) (hc : c.getD 1728 = (w : Int))
+    (hal : flagOf d CcittStream.keyAlign = .ok al) (hrv : flagOf d CcittStream.keyBlackIs1 = .ok rv)
+    (rows : List (List Bool)) (hrows : ∀ r ∈ rows, r.length = w) (chs : List (List T6.Choice)) (eofb : Bool) :
+    ccittBranch (.dict d) (T6.encodeImage w rows chs al eofb) = .ok (T6.packImage rv rows) := by
+  have h := stream_rt ⟨some (-1), c, some al, some rv⟩ w hw rfl hc rows hrows chs eofb
+  simp only [ccittfaxdecodeParams, Option.getD_some] at h
+  have hk : kOf d = .ok (some (-1)) := by simp only [kOf, hK]
+  simp only [ccittBranch, hk, hcols, hal, hrv]
+  exact h
+
+/-- **PDFStream.get_data() on a CCITTFaxDecode stream.**  Whatever way the dictionary spells it —
+`/Filter` or `/F`, a name or an array, `/DecodeParms`, `/DP` or `/FDecodeParms`, a dictionary or an
+array with one entry per filter — if `get_filters` pairs the last filter, named `CCITTFaxDecode` or
+`CCF`, with a dictionary `d` as in `ccittBranch_rt` (no `/Predictor`), and the filters in front of it
+(any model `other` of them) turn the raw data into the T.6 encoding of the image, then the stream
+decodes to exactly the packed rows. -/
+theorem pdfstream_rt (other : String → List UInt8 → Except Err (List UInt8)) (attrs : Dict)
+    (pre : List (PObj × PObj)) (fname : String) (d : Dict) (raw : List UInt8)
+    (w : Nat) (hw : 1 ≤ w) (c : Option Int) (al rv : Bool)
+    (rows : List (List Bool)) (hrows : ∀ r ∈ rows, r.length = w) (chs : List (List T6.Choice)) (eofb : Bool)
+    (hgf : getFilters attrs = pre ++ [(.name fname, .dict d)])
+    (hname : CcittStream.ccittFilterNames.contains fname = true)
+    (hpre : decodeChain other pre raw = .ok (T6.encodeImage w rows chs al eofb))
+    (hK : d.lookup CcittStream.keyK = some (.int (-1)))
+    (hcols : columnsOf d = .ok c) (hc : c.getD 1728 = (w : Int))
+    (hal : flagOf d CcittStream.keyAlign = .ok al) (hrv : flagOf d CcittStream.keyBlackIs1 = .ok rv)
+    (hpred : d.lookup CcittStream.predictorKey = none) :
+    streamDecode other attrs raw = .ok (T6.packImage rv rows) := by
+  have hb := ccittBranch_rt d w hw c al rv hK hcols hc hal hrv rows hrows chs eofb
+  simp only [streamDecode, hgf, decodeChain_append, hpre, decodeChain, decodeStep, hname, if_true, hb,
+    hasPredictor, hpred, Option.isSome_none, Bool.false_eq_true, if_false]
+
+/-- How `get_filters` pairs a single filter name with a single parameter dictionary … -/
+theorem getFilters_name_dict (attrs : Dict) (n : String) (d : Dict)
+    (hf : getAny attrs CcittStream.filterKeys = some (.name n))
+    (hp : getAny attrs CcittStream.parmsKeys = some (.dict d)) :
+    getFilters attrs = [(.name n, .dict d)] := by
+  simp [getFilters, hf, hp, PObj.falsy, List.replicate]
+
+/-- … an array of filters with an array of parameters (position by position, `zip`) … -/
+theorem getFilters_arr_arr (attrs : Dict) (f : PObj) (fs ps : List PObj)
+    (hf : getAny attrs CcittStream.filterKeys = some (.arr (f :: fs)))
+    (hp : getAny attrs CcittStream.parmsKeys = some (.arr ps)) :
+    getFilters attrs = (f :: fs).zip ps := by
+  simp [getFilters, hf, hp, PObj.falsy]
+
+/-- … and an array of filters with one dictionary (every filter gets it). -/
+theorem getFilters_arr_dict (attrs : Dict) (f : PObj) (fs : List PObj) (d : Dict)
+    (hf : getAny attrs CcittStream.filterKeys = some (.arr (f :: fs)))
+    (hp : getAny attrs CcittStream.parmsKeys = some (.dict d)) :
+    getFilters attrs = (f :: fs).zip (List.replicate (fs.length + 1) (.dict d)) := by
+  simp [getFilters, hf, hp, PObj.falsy]
+
+/-! ## Totality on arbitrary data (feeds C13) -/
+
+/-- For EVERY byte string and every parameter combination with a positive width, the model of
+`ccittfaxdecode` returns data or raises `CCITTG4Parser.InvalidData` (a `PDFException`), or
+`PDFValueError` when K is not -1 — nothing else: the internal `unmodelled` branches (a code table
+handing out a symbol of the wrong kind, `_state` not being a list, …) are unreachable.  The work is
+bounded by construction: `feedBytes`/`feedBits` call `stepBit` once per bit, at most 8·len(data) times. -/
+theorem decode_total (K cols : Option Int) (al rv : Bool) (data : List UInt8)
+    (hc : 1 ≤ cols.getD 1728) :
+    (∃ out, ccittfaxdecode K cols al rv data = .ok out) ∨
+    (K = some (-1) ∧ ccittfaxdecode K cols al rv data = .error .invalidData) ∨
+    (K ≠ some (-1) ∧ ccittfaxdecode K cols al rv data = .error .valueError) := by
+  by_cases hK : K = some (-1)
+  · subst hK
+    have hc' : ¬ ((cols.getD 1728) ≤ 0) := by omega
+    have hwt : WT (initSt (cols.getD 1728).toNat al rv) := wt_mode _ rfl rfl
+    simp only [ccittfaxdecode, CcittCode.columnsDefault, hc']
+    rcases feedBytes_total data _ hwt with ⟨st', h⟩ | h
+    · left; exact ⟨st'.buf, by simp [CcittCode.kGroup4, h]⟩
+    · right; left; exact ⟨trivial, by simp [CcittCode.kGroup4, h]⟩
+  · right; right
+    refine ⟨hK, ?_⟩
+    have : K ≠ some CcittCode.kGroup4 := hK
+    simp only [ccittfaxdecode, this, ne_eq, not_false_eq_true, if_true]
+
+/-- Bounded output (hence bounded work per input byte): whatever the data, the decoder emits at most
+48 lines — 48·⌈width/8⌉ bytes — per input byte (6 per bit: the longest uncompressed-mode symbol;
+a T.6 mode code completes at most one line). -/
+theorem decode_output_bounded (K cols : Option Int) (al rv : Bool) (data out : List UInt8)
+    (hc : 1 ≤ cols.getD 1728) (h : ccittfaxdecode K cols al rv data = .ok out) :
+    out.length ≤ 48 * data.length * (((cols.getD 1728).toNat + 7) / 8) := by
+  have hc' : ¬ ((cols.getD 1728) ≤ 0) := by omega
+  simp only [ccittfaxdecode, CcittCode.columnsDefault, hc'] at h
+  split at h
+  · cases h
+  · simp only [if_false] at h
+    cases hf : feedBytes (initSt (cols.getD 1728).toNat al rv) data with
+    | error e => rw [hf] at h; cases h
+    | ok st' =>
+      rw [hf] at h
+      simp only [Except.ok.injEq] at h
+      subst h
+      have hwt : WT (initSt (cols.getD 1728).toNat al rv) := wt_mode _ rfl rfl
+      have g := feedBytes_grew data _ st' hwt (by simp [initSt]) hf
+      have := g.buf
+      simp only [initSt, List.length_nil, Nat.zero_add, lineBytes] at this
+      exact this
+
+/-- The same for the dictionary route: only `PDFException`s (`InvalidData`, `PDFValueError`,
+`PDFNotImplementedError`) or, for objects outside the model's domain (non-integer Columns, a
+predictor, …), the explicit `unmodelled` marker come out of the CCITT branch — and for a
+well-formed Group 4 dictionary with positive width not even that. -/
+theorem ccittBranch_total (d : Dict) (c : Option Int) (al rv : Bool) (data : List UInt8)
+    (hK : d.lookup CcittStream.keyK = some (.int (-1)))
+    (hcols : columnsOf d = .ok c) (hc : 1 ≤ c.getD 1728)
+    (hal : flagOf d CcittStream.keyAlign = .ok al) (hrv : flagOf d CcittStream.keyBlackIs1 = .ok rv) :
+    (∃ out, ccittBranch (.dict d) data = .ok out) ∨ ccittBranch (.dict d) data = .error .invalidData := by
+  have hk : kOf d = .ok (some (-1)) := by simp only [kOf, hK]
+  have hg : ((-1 : Int) = CcittCode.kGroup4) := rfl
+  simp only [ccittBranch, hk, hcols, hal, hrv, ne_eq, hg, not_true_eq_false, if_false]
+  rw [← hg]
+  rcases decode_total (some (-1)) c al rv data hc with h | ⟨_, h⟩ | ⟨h, _⟩
+  · left; exact h
+  · right; exact h
+  · exact absurd rfl h
+
+/-! ## The uncompressed-mode extension is outside the property
+
+C19 quantifies over "any admissible mix of pass, vertical and horizontal modes"; the optional
+uncompressed mode of T.6 (entered by the extension code 0000001111) is not one of them, and the
+source itself says "Bugs: uncompressed mode untested".  The decoder's handling of it is modelled
+(`parseUncompressed`, `doUncompressed`) and tied to the code on crafted streams, so that `decode_total`
+covers it, but no round trip can be stated: `_do_uncompressed` writes its first pixel to
+`curline[-1]` (the LAST column, because `_curpos` starts at -1), so a row never completes after
+`width` pixels.  Proved on the smallest instance: -/
+
+/-- Width 2, uncompressed mode, the two pixels `0 1`: no row comes out at all; only a third pixel
+completes the row, which is then `1 1` whatever the first pixel was. -/
+theorem uncompressed_mode_cex :
+    (ccittfaxdecode (some (-1)) (some 2) false false [0x03, 0xD0]).toOption = some [] ∧
+    (ccittfaxdecode (some (-1)) (some 2) false false [0x03, 0xD8]).toOption = some [0xC0] := by
+  decide +kernel
 
 /-! ## Non-vacuity: concrete instances, evaluated by the kernel -/
 
@@ -170,5 +334,55 @@ example : T6.encodeRun false 2700 = T6.runCode false 2560 ++ T6.runCode false 12
 /-- Pass mode is really used by the standard choice on some input (b2 < a1). -/
 example : T6.encodeLine [true, false, true, true, true] [true, true, true, true, false] []
     = T6.codeP ++ T6.codeV (-1) ++ T6.codeV 0 := by decide +kernel
+
+/-- `pdfstream_rt` on a concrete dictionary: `/F [/AHx /CCF] /DP [null << /K -1 /Columns 5
+/EncodedByteAlign true /Rows 3 /EndOfBlock true >>] /Length 21`, the first filter standing for any
+decoder that delivers the T.6 data. -/
+example :
+    streamDecode (fun _ _ => .ok [0x23, 0xA8, 0x14, 0x51, 0xA8, 0x26, 0xA6, 0x00, 0x10, 0x01])
+      [("Length", .int 21), ("F", .arr [.name "AHx", .name "CCF"]),
+       ("DP", .arr [.null, .dict [("K", .int (-1)), ("Columns", .int 5), ("EncodedByteAlign", .bool true),
+                                  ("Rows", .int 3), ("EndOfBlock", .bool true)]])] []
+      = .ok (T6.packImage false [[true, false, true, true, true], [true, true, true, true, false],
+        [false, false, false, false, false]]) := by
+  have henc : T6.encodeImage 5 [[true, false, true, true, true], [true, true, true, true, false],
+        [false, false, false, false, false]] [[.horiz, .vert], [.pass, .vert, .horiz], []] true true
+      = [0x23, 0xA8, 0x14, 0x51, 0xA8, 0x26, 0xA6, 0x00, 0x10, 0x01] := by decide +kernel
+  refine pdfstream_rt _ _ [(.name "AHx", .null)] "CCF"
+    [("K", .int (-1)), ("Columns", .int 5), ("EncodedByteAlign", .bool true), ("Rows", .int 3),
+     ("EndOfBlock", .bool true)] [] 5 (by omega) (some 5) true false _ (by decide)
+    [[.horiz, .vert], [.pass, .vert, .horiz], []] true
+    ((getFilters_arr_arr _ (.name "AHx") [.name "CCF"] _ rfl rfl).trans rfl) (by decide) ?_ rfl rfl rfl rfl rfl rfl
+  rw [henc]; rfl
+
+/-- `decode_total` is not vacuous in any of its three cases: data, `InvalidData`, `PDFValueError`. -/
+example :
+    (ccittfaxdecode (some (-1)) (some 3) false false [0x00, 0x80]).toOption = none ∧
+    (ccittfaxdecode (some (-1)) (some 3) false false [0xFF, 0x12, 0x34]).toOption = some [0xE0, 0xE0, 0xE0, 0xE0, 0xE0, 0xE0, 0xE0, 0xE0, 0xE0] ∧
+    (ccittfaxdecode (some 0) (some 3) false false [0xFF]).toOption = none := by
+  decide +kernel
+
+/-- `run_rt`, `line_rt`, `encodeLine_fuel`, `ccittBranch_total`: their hypotheses are met by ordinary states. -/
+example : ∃ st1 : St, st1.n1 = 0 + 2700 ∧ st1.color = false :=
+  (run_rt true 2700 { initSt 5 false false with acc := .horiz1, node := runTrie true } rfl rfl rfl).elim
+    fun st1 h => ⟨st1, h.1, h.2.2.1⟩
+
+example : ∃ st', Ready 5 true false [true, false, false, true, true]
+    ([] ++ packLine false [true, false, false, true, true]) st' :=
+  (line_rt 5 (by omega) true false (List.replicate 5 true) [true, false, false, true, true] rfl rfl
+    [.horiz, .vert] [] (initSt 5 true false) ⟨rfl, rfl, rfl, rfl, rfl, rfl, rfl, rfl, rfl, rfl⟩).elim
+    fun st' h => ⟨st', h.1⟩
+
+example : T6.encodeLineAux [true, true, true] [false, true, false] 100 (-1) true [.vert]
+    = T6.encodeLine [true, true, true] [false, true, false] [.vert] :=
+  encodeLine_fuel [true, true, true] [false, true, false] rfl [.vert] 100 (by decide)
+
+example : (∃ out, ccittBranch (.dict [("K", .int (-1)), ("Columns", .int 3), ("BlackIs1", .int 1)]) [0x00, 0x80] = .ok out) ∨
+    ccittBranch (.dict [("K", .int (-1)), ("Columns", .int 3), ("BlackIs1", .int 1)]) [0x00, 0x80] = .error .invalidData :=
+  ccittBranch_total _ (some 3) false true _ rfl rfl (by decide) rfl rfl
+
+/-- `decode_output_bounded` on the all-ones data above: 9 bytes out of 3 bytes in, bound 144. -/
+example : (9 : Nat) ≤ 48 * [0xFF, 0x12, 0x34].length * ((((some 3 : Option Int).getD 1728).toNat + 7) / 8) := by
+  decide
 
 end PdfVerif.Props.C19
